@@ -44,6 +44,11 @@ func NewCtx(P *sx.Program, tier string, seed int64) (*Ctx, error) {
 		short := shortPkg(f.Pkg)
 		for _, ct := range f.Contracts {
 			name := short + "." + ct.Func
+			if strings.HasPrefix(ct.Func, "(*") {
+				name = "(*" + short + "." + ct.Func[2:]
+			} else if strings.HasPrefix(ct.Func, "(") {
+				name = "(" + short + "." + ct.Func[1:]
+			}
 			if _, dup := c.Contracts[name]; dup {
 				return nil, fmt.Errorf("%s:%d: duplicate contract for %s", ct.File, ct.Line, name)
 			}
@@ -254,6 +259,7 @@ func (us *UnitSpec) Unit() *vc.Unit {
 				p.Assume(ev.Bool(r.Expr))
 			}
 			Snapshot(ev)
+			p.Ghost["entryNext"] = p.Next
 			if us.Canary {
 				// vacuity canary: "ensures false" must fail
 				p.Assert(fname+"/canary", "canary", smt.False, "", "vacuity canary (must fail)")
